@@ -148,15 +148,66 @@ def SkipPat (G : Grammar) (a : Bool) (e : Expr) (subs : List Str) : Prop :=
     (∃ k', regG G k' x = true) ∧
     (a = true ∨ NoTrivia G)
 
-/-- what `squash` needs of the embedded rule nodes it flattens -/
-def RuleOK : Expr → Prop
-  | .rule n m _ b => hasBit m SILENT = true ∧ ∀ pn, b = .uprop pn → pn = n
+/-- ranges are not reversed -/
+def AltOK : Alt → Prop
+  | .range lo hi => lo ≤ hi
+  | _ => True
+
+/-- what `squash` needs of the nodes it flattens: embedded rule nodes are silent and a Unicode
+    property rule carries its own name; a nested `OptimizedChoice` is not the repeating kind and
+    not empty; a range is not reversed (`re.compile("[z-a]")` raises, so no loadable grammar has one) -/
+def SqOK : Expr → Prop
+  | .rule n m _ b => (∀ pn, b = .uprop pn → pn = n ∧ hasBit m SILENT = true) ∧
+      (∀ es, b = .choice es → hasBit m SILENT = true)
+  | .choice es => es ≠ []
+  | .optChoice alts star => star = false ∧ alts ≠ [] ∧ ∀ a ∈ alts, AltOK a
+  | .range a b => a ≤ b
   | _ => True
 
 /-- a `Choice` whose (already rewritten) alternatives `squash` turns into `alts` -/
 def SqPat (G : Grammar) (es' : List Expr) (alts : List Alt) : Prop :=
   ∃ k, Opt.squash k es' [] = some alts ∧ alts ≠ [] ∧ Opt.isOrderPreserving G alts = true ∧
-    AllNL RuleOK es'
+    AllNL SqOK es'
+
+theorem squash_altOK : ∀ (k : Nat) (es : List Expr) (acc alts : List Alt),
+    Opt.squash k es acc = some alts → AllNL SqOK es → (∀ a ∈ acc, AltOK a) → ∀ a ∈ alts, AltOK a := by
+  intro k
+  induction k with
+  | zero => intro es acc alts h; simp [Opt.squash] at h
+  | succ k ih =>
+    intro es acc alts h hes hacc
+    cases es with
+    | nil => simp only [Opt.squash, Option.some.injEq] at h; subst h; exact hacc
+    | cons e rest =>
+      simp only [Opt.squash] at h
+      split at h
+      · exact absurd h (by simp)
+      · rename_i acc' hone
+        refine ih rest acc' alts h hes.2 ?_
+        have hsnoc : ∀ (x : Alt), AltOK x → ∀ a ∈ acc ++ [x], AltOK a := by
+          intro x hx a ha
+          rcases List.mem_append.1 ha with h1 | h1
+          · exact hacc a h1
+          · simp only [List.mem_singleton] at h1; subst h1; exact hx
+        cases e with
+        | str x => simp only [Option.some.injEq] at hone; subst hone; exact hsnoc _ trivial
+        | ci x => simp only [Option.some.injEq] at hone; subst hone; exact hsnoc _ trivial
+        | range lo hi =>
+          simp only [Option.some.injEq] at hone; subst hone
+          exact hsnoc _ (show lo ≤ hi from hes.1)
+        | optChoice al st =>
+          simp only [Option.some.injEq] at hone; subst hone
+          intro a ha
+          rcases List.mem_append.1 ha with h1 | h1
+          · exact hacc a h1
+          · exact (show SqOK (.optChoice al st) from hes.1).2.2 a h1
+        | choice es1 => simp only [] at hone; exact ih es1 acc acc' hone hes.1.2 hacc
+        | rule n m sm b =>
+          cases b with
+          | uprop pn => simp only [Option.some.injEq] at hone; subst hone; exact hsnoc _ trivial
+          | choice es1 => simp only [] at hone; exact ih es1 acc acc' hone hes.1.2.2 hacc
+          | _ => simp at hone
+        | _ => simp at hone
 
 /-! ### the relation -/
 
